@@ -28,6 +28,7 @@ ASSUMPTIONS = ["programs that write an element twice between flush points are ou
                "cancelling logged writes is outside the domain (known issue 2: NC_EFLUSHED)",
                "single node, local file system for both the destination file and the log directory"]
 FORMS = ["var", "var1", "vara", "vars", "varn"]
+SWITCHES = {"redef_from_indep": True}     # ncmpi_redef entered from independent data mode (see known findings)
 
 
 @st.composite
@@ -73,11 +74,15 @@ def case_strategy(draw, tier="quick"):
             continue
         if kind == "flushpoint":
             how = draw(st.sampled_from(["flush", "sync", "wait", "redef", "reopen"]))
-            if how in ("redef", "reopen") and indep:
+            if how == "reopen" and indep:
+                how = "flush"
+            if how == "redef" and indep and not SWITCHES["redef_from_indep"]:
                 how = "flush"
             if how == "reopen" and cfg["keep"]:
                 how = "sync"      # with log retention the retained log of the first session makes a second create of the log fail (NC_EEXIST)
             steps.append({"op": "flushpoint", "how": how})
+            if how == "redef":
+                indep = False          # ncmpi_redef leaves independent data mode; enddef returns to collective data mode
             numrecs = max(numrecs, pend_top)
             pend_top = 0
             flushed = numrecs
@@ -244,8 +249,11 @@ def build(case, bb=True):
                     if indep and k > 1:
                         p.op("barrier", expect=None)
             elif how == "redef":
+                if indep:
+                    labels.add("redef_from_indep_mode")
                 p.op("redef", step=True, f="f0")
                 p.op("enddef", step=True, f="f0")
+                indep = False
             elif how == "reopen":
                 p.op("close", step=True, f="f0")
                 p.op("open", step=True, f="f0", path=hx("t.nc"), mode=1, **({"info": "i1"} if hints else {}))
